@@ -193,7 +193,7 @@ class Prop:
 
     def reexecutable(self, case):
         """recorded many-thread histories cannot be re-executed deterministically: kept as recorded"""
-        return not case.startswith("vq hist")
+        return not (case.startswith("vq hist") or case.startswith("vq sched"))
 
     def compare_possible(self):
         return os.path.exists(core.DRIVER)
